@@ -168,6 +168,19 @@ def small_hash(case, byte):
     return hashlib.sha1(json.dumps(case, sort_keys=True, default=str).encode()).digest()[byte]
 
 
+def stack_flag(case):
+    """a quarter of the cases hand their coordinates over as one stacked array (see maybe_stack): a pure function of the case"""
+    return small_hash(case, 15) % 4 == 0
+
+
+def maybe_stack(coords, flag):
+    """The coordinate arrays as ONE array of shape (n_coordinates, ...) - the form in which verde.longitude_continuity returns coordinates and in
+    which users pipe them into the next function - when `flag` is set and they are float64 arrays of one shape; otherwise the tuple as it is."""
+    if flag and len(coords) >= 2 and all(type(a) is np.ndarray and a.dtype == np.float64 for a in coords) and len({a.shape for a in coords}) == 1:
+        return np.array(coords)
+    return coords
+
+
 def plain_flag(case):
     """Whether whole-number scalars of this case (region bounds, spacings, sizes, pads) are handed to verde as Python ints instead of
     floats: a pure function of the case (a third of them)."""
@@ -182,6 +195,19 @@ def plain(v, on=True):
     if isinstance(v, (list, tuple)):
         return type(v)(plain(x, on) for x in v)
     return int(v) if on and isinstance(v, float) and v.is_integer() and abs(v) < 2**53 else v
+
+
+def numpy_ints(seq, case, byte=16):
+    """A region / pair of bounds whose entries are all Python ints (see plain) in the forms other verde functions hand them on: as they are, as
+    numpy int64 scalars (get_region of whole-metre coordinate arrays) or as one int64 array (longitude_continuity of an integer region)."""
+    if not (isinstance(seq, (list, tuple)) and seq and all(type(x) is int for x in seq)):
+        return seq
+    form = small_hash(case, byte) % 3
+    if form == 1:
+        return type(seq)(np.int64(x) for x in seq)
+    if form == 2:
+        return np.array(seq, dtype="int64")
+    return seq
 
 
 TABLES = [None, None, None, "en", "ne", "rev", "rows"]
